@@ -29,6 +29,10 @@ def jobs(tier, seed):
             out.append({"suite": su, "shard": sh, "n": n // shards, "seed": seed, "cost": okv.suite_cost(su) * n / shards, "big": sh == 0})
     for su in okv.SUITES20:
         out.append({"suite": su + ":id", "shard": 0, "n": 2 if tier == "quick" else 12, "seed": seed, "cost": okv.suite_cost(su), "big": False})
+    # the real Argon2 adapter: the stretched value is taken from the argon2 crate called directly by the harness
+    # (salt = 16 zero bytes, tag length = Nh, as RFC 9807 prescribes) - opaque-ke's own Ksf impl is not involved
+    for su in okv.ARGON_SUITES:
+        out.append({"suite": su, "shard": 0, "n": 3 if tier == "quick" else 12, "seed": seed, "cost": 300, "big": False})
     return out
 
 
@@ -45,9 +49,18 @@ def draws_of(seedtape, reply):
     return out
 
 
-def ksf_fn(suite, ksf_name):
+def ksf_fn(suite, ksf_name, session=None):
     if suite.endswith(":id"):
         return lambda x: x
+    if suite.endswith(":argon2"):
+        name = ksf_name or "kdef"
+
+        def f(x):
+            r = session.cmd("ksf_ref", ksf=name, input=x, len=len(x))
+            if not r.ok:
+                raise RuntimeError("argon2 reference failed: %s" % r.get("err"))
+            return bytes.fromhex(r.out)
+        return f
     param = {None: okv.HKSF_DEFAULT_PARAM, "k1": 1, "k0": 0, "k3": 3}[ksf_name]
     return lambda x: okv.hksf(param, x)
 
@@ -193,7 +206,12 @@ def run_job(job):
     evals = 0
     bx = bytes.fromhex
     with okv.Session(su) as s:
-        if not su.endswith(":id"):
+        if su.endswith(":argon2"):
+            s.cmd("ksf_new", id="kdef", param="default")
+            s.cmd("ksf_new", id="kcheap", param={"m": 64, "t": 1, "p": 1})
+            s.cmd("ksf_new", id="kcheap2", param={"m": 96, "t": 2, "p": 2})
+            modes = [None, "kcheap", "kdef", "kcheap2"]
+        elif not su.endswith(":id"):
             s.cmd("ksf_new", id="k1", param=1)
             s.cmd("ksf_new", id="k0", param=0)
             s.cmd("ksf_new", id="k3", param=3)
@@ -217,7 +235,7 @@ def run_job(job):
             rng = s.rng("r", wseed)
             st = s.cmd("setup_new", rng=rng, out="S")
             w = {"pw": pw[1], "pw_login": pw[1], "cred": cred[1], "id_u": idu[1], "id_s": ids_[1], "ctx": ctx[1],
-                 "reg_id_u": idu[1], "reg_id_s": ids_[1], "ksf": ksf_fn(su, ksfn),
+                 "reg_id_u": idu[1], "reg_id_s": ids_[1], "ksf": ksf_fn(su, ksfn, s),
                  "setup": bx(st.ser), "setup_pk": bx(st.pk), "setup_draws": draws_of((wseed, b""), st)}
             evals += 1
             file_h = None
@@ -231,7 +249,7 @@ def run_job(job):
                 w["reg"] = {"creg_state": bx(reg.creg_state), "rreq": bx(reg.rreq), "rresp": bx(reg.rresp), "rupl": bx(reg.rupl),
                             "file": bx(reg.file), "export_key": bx(reg.export_key), "server_s_pk": bx(reg.server_s_pk),
                             "start_draws": draws_of((wseed, b""), reg.steps[0][1]), "finish_draws": draws_of((wseed, b""), fin),
-                            "ksf_inputs": [bx(k["in"]) for k in fin.get("ksf", [])] if not su.endswith(":id") else None}
+                            "ksf_inputs": [bx(k["in"]) for k in fin.get("ksf", [])] if ":" not in su else None}
                 file_h = reg.file_h
             lg = proto.login(s, rng, rng, "S", file_h, pw[1], cred[1], ctx_c=ctx[1], ctx_s=ctx[1], id_u_c=idu[1], id_s_c=ids_[1],
                              id_u_s=idu[1], id_s_s=ids_[1], ksf=ksfn, wire=wire, tag="l")
@@ -268,7 +286,7 @@ def run_job(job):
 
 
 def floors(tier, stats, results):
-    missing = [x for x in okv.SUITES20 if stats.get("suites", {}).get(x, 0) < 4]
+    missing = [x for x in okv.SUITES20 + okv.ARGON_SUITES if stats.get("suites", {}).get(x, 0) < (4 if ":" not in x else 2)]
     out = []
     if missing:
         out.append("fewer than 4 model-checked worlds for suites %s" % missing)
